@@ -9,7 +9,7 @@ trap 'git -C /repo worktree remove --force '$wt' >/dev/null 2>&1' EXIT
 cd $wt
 cp "$sd/demo/$demo" "$dest"
 echo "--- without patch:"; go test -vet=off -count=1 -timeout $to -run "$run" $pkg 2>&1 | tail -3; r0=${PIPESTATUS[0]}
-git apply "$sd/patch.diff" || { echo "patch does not apply"; exit 2; }
+P="$sd/patch.diff"; [ -f "$sd/patch.rebased.diff" ] && P="$sd/patch.rebased.diff"; git apply "$P" || { echo "patch does not apply"; exit 2; }
 echo "--- build with patch:"; go build ./... 2>&1 | tail -3; rb=${PIPESTATUS[0]}
 echo "--- with patch:"; go test -vet=off -count=1 -timeout $to -run "$run" $pkg 2>&1 | tail -5; r1=${PIPESTATUS[0]}
 echo "RESULT without=$r0 build=$rb with=$r1  (want 0 0 nonzero)"
